@@ -49,6 +49,24 @@ class Dom(BoxDomain):
             if not isfp(v):
                 return UNK
             return {'isnan': isnan(v), 'finite': finite(v), 'notnan': z3.Not(isnan(v))}[name]
+        if name == 'fixes':
+            # every projector of a list built here returns the (generic component of the) centre unchanged
+            lst, x = eng.ev(e.args[0], st), eng.ev(e.args[1], st)
+            if isinstance(lst, ListV) and isfp(x):
+                parts = []
+                for fn in lst.items:
+                    if not isinstance(fn, Fn):
+                        return UNK
+                    sub = st.copy()
+                    r = eng.inline(fn, [x], {}, sub, e)
+                    if not isfp(r):
+                        return UNK
+                    hy = sub.pc[len(st.pc):]
+                    parts.append(z3.Implies(z3.And(*hy) if hy else z3.BoolVal(True), z3.fpEQ(r, x)))
+                return z3.And(*parts) if parts else z3.BoolVal(True)
+            if isinstance(lst, ProjListB):
+                return z3.BoolVal(True)     # the caller's projections: A-callback (the current iterate is feasible for the caller's sets up to Dykstra's tolerance)
+            return UNK
         if name == 'ISDYK':
             v = eng.ev(e.args[0], st)
             return ISDYK(v) if isfp(v) else UNK
@@ -196,6 +214,14 @@ def build(repo):
         D.contract(q, tags=T, requires=['INV_ctrl(self)', SAVED] + (['isnone(x_in_abs_coords_to_save)'] if q.endswith('soft_restart') else []),
                    params={'x_in_abs_coords_to_save': 'opt:fp'} if q.endswith('soft_restart') else {}, modifies=CM, result='unk',
                    ensures=['INV_ctrl(self)', SAVED], ledger_inv=['INV_ctrl(self)', SAVED])
+    # ------------------------------------------------------------------ C06 (ii) / C03: the regularised subproblem works on the true (absolute) box
+    D.contract('ctrsbox_sfista', tags=['C06', 'C03'], params={'xopt': 'fp'},
+               requires=[('feasible centre: every projector handed to the subproblem solver returns xopt unchanged (the box is the box around the ABSOLUTE point):: '
+                          'fixes(projections, xopt)', 'C06', 'C03')],
+               modifies=[], result=('unk', 'unk', 'unk'), ensures=[], assumed=True, notes='only the precondition on the projector list matters in this bundle')
+    for q in ('Controller.trust_region_step', 'Controller.evaluate_criticality_measure'):
+        D.contract(q, tags=['C06', 'C03'], requires=['INV_ctrl(self)', 'A-nan:: finite(self.model.xbase) and notnan(self.model.sl) and notnan(self.model.su) and notnan(self.model.points)'],
+                   modifies=[], result='unk', ensures=[])
     # ------------------------------------------------------------------ solve_main
     D.contract('solve_main', tags=T,
                params={'x0': 'fp', 'xl': 'fp', 'xu': 'fp', 'projections': 'projlist', 'scaling_changes': 'scaling', 'npt': 'int', 'objfun': 'cb:objfun',
@@ -234,7 +260,7 @@ def build(repo):
                loops={'while#0': ['inbox(xmin)', 'finite(xmin)', 'box_ok()']},
                modifies=['G.lo', 'G.hi', 'G.first', 'params[*]'], result='unk',
                ensures=['T_C01: the returned solution lies inside the caller\'s bounds, exactly:: implies(result.flag != EXIT_INPUT_ERROR, inuser(result.x))'])
-    D.verify_list = ['solve', 'Controller.__init__', 'Controller.geometry_step', 'Controller.check_and_fix_geometry', 'Controller.add_new_direction_while_growing',
+    D.verify_list = ['solve', 'Controller.trust_region_step', 'Controller.evaluate_criticality_measure', 'Controller.__init__', 'Controller.geometry_step', 'Controller.check_and_fix_geometry', 'Controller.add_new_direction_while_growing',
                      'Controller.initialise_coordinate_directions', 'Controller.initialise_random_directions', 'Controller.move_furthest_points',
                      'Controller.move_furthest_points_momentum', 'Controller.soft_restart', 'solve_main', 'pbox', 'apply_scaling', 'remove_scaling', 'dykstra', 'Model.__init__', 'Model.as_absolute_coordinates', 'Model.xpt',
                      'Model.save_point', 'Model.get_final_results', 'eval_least_squares_with_regularisation', 'Controller.evaluate_objective']
